@@ -456,7 +456,22 @@ pub fn run(tier: Tier, reg: &[VT]) -> Report {
 		let shape = (vt.shape)();
 		for v in domain::reduced(&shape) {
 			acc.evaluations += 1;
-			match super::c06::holders(vt, &shape, &v) {
+			// `T: EncodeLike<Box<T>>` etc. are declared for every encodable T: the bytes of the plain value
+			// must decode as the holder to the same value
+			let as_holders = |vt: &VT| -> Result<usize, String> {
+				let Ok(enc) = ref_enc(&shape, &v) else { return Ok(0) };
+				let enc = if shape.order_free() { (vt.encode)(&v) } else { enc };
+				let rs = guarded(|| (vt.decode_holders)(&enc)).map_err(|p| format!("decoding as a holder panicked: {}", p))?;
+				for (name, r) in &rs {
+					match r {
+						Ok(d) if d.consumed == enc.len() && shape.normalize(&d.value) == shape.normalize(&v) => {},
+						Ok(d) => return Err(format!("the bytes {} of the plain value decode as {} to {} consuming {}", hex(&enc), name, value_short(&d.value), d.consumed)),
+						Err(e) => return Err(format!("the bytes {} of the plain value do not decode as {}: {}", hex(&enc), name, e)),
+					}
+				}
+				Ok(rs.len())
+			};
+			match super::c06::holders(vt, &shape, &v).and_then(|n| as_holders(vt).map(|m| n + m)) {
 				Ok(n) => {
 					acc.states += 1;
 					acc.traces += n as u64;
@@ -474,7 +489,7 @@ pub fn run(tier: Tier, reg: &[VT]) -> Report {
 			}
 		}
 	});
-	rep.part("derived types", "every generated derive definition behind &T / Box / Rc / Arc alias forms", acc);
+	rep.part("derived types", "every generated derive definition behind &T / Box / Rc / Arc alias forms, and the bytes of the plain value decoded as Box<T> / Rc<T> / Arc<T> / Box<Box<T>> / [T; 1]", acc);
 
 	rep.rule = "case = (EncodeLike family instantiated with concrete types, value of the target type's boundary domain); the compiler checks that every listed pair is declared; non-trivial = all".into();
 	rep.bounds = json!({"element_types": ["u8", "u32", "String", "Vec<u16>", "(u8, bool)"], "families": families});
@@ -505,7 +520,16 @@ pub fn replay(reg: &[VT], case: &Json) -> Option<String> {
 		},
 		"C16.derived" => {
 			let vt = find_vt(reg, case["type"].as_str().unwrap());
-			super::c06::holders(vt, &(vt.shape)(), &value_from_json(&case["value"])).err()
+			let shape = (vt.shape)();
+			let v = value_from_json(&case["value"]);
+			super::c06::holders(vt, &shape, &v).err().or_else(|| {
+				let enc = ref_enc(&shape, &v).ok()?;
+				(vt.decode_holders)(&enc).into_iter().find_map(|(name, r)| match r {
+					Ok(d) if d.consumed == enc.len() && shape.normalize(&d.value) == shape.normalize(&v) => None,
+					Ok(_) => Some(format!("decodes as {} to a different value", name)),
+					Err(e) => Some(format!("does not decode as {}: {}", name, e)),
+				})
+			})
 		},
 		_ => None,
 	}
